@@ -16,7 +16,7 @@
 (*                      alphabet, a sequence of 1-character strings        *)
 (* The implementation-shaped algorithm model lives in MC_CifEdit.          *)
 (***************************************************************************)
-EXTENDS Naturals, Sequences, FiniteSets
+EXTENDS Naturals, Sequences, FiniteSets, TLC
 
 Ran(s) == { s[i] : i \in DOMAIN s }
 
@@ -35,18 +35,25 @@ WellFormedDoc(d) ==
 
 Idx(attrs, a) == CHOOSE i \in DOMAIN attrs : attrs[i] = a
 
+\* TLC keeps [x \in S |-> e] as an unevaluated function: every application re-evaluates e (and, for the membership
+\* test, S).  On documents with ten thousand rows that is quadratic.  Merging with the empty function / appending
+\* the empty sequence yields the same value in evaluated form.
+ForceFn(f)  == f @@ <<>>
+ForceSeq(s) == s \o <<>>
+
 \* ---- abstraction ----------------------------------------------------------
 CatFun(c) ==
-  LET ix == [a \in Ran(c.attrs) |-> Idx(c.attrs, a)] IN
-  [k \in DOMAIN c.rows |-> [a \in Ran(c.attrs) |-> c.rows[k][ix[a]]]]
+  LET ix == ForceFn([a \in Ran(c.attrs) |-> Idx(c.attrs, a)])
+      items == Ran(c.attrs) IN
+  ForceSeq([k \in DOMAIN c.rows |-> ForceFn([a \in items |-> c.rows[k][ix[a]]])])
 
 DocFun(d) ==
-  [n \in CatNames(d) |-> CatFun(d.cats[CHOOSE i \in DOMAIN d.cats : d.cats[i].name = n])]
+  ForceFn([n \in CatNames(d) |-> CatFun(d.cats[CHOOSE i \in DOMAIN d.cats : d.cats[i].name = n])])
 
 \* ---- operations -----------------------------------------------------------
 \* items of an abstract category (every category has at least one row)
 ItemsOf(C) == DOMAIN C[1]
-ColOf(C, a) == [k \in DOMAIN C |-> C[k][a]]
+ColOf(C, a) == ForceSeq([k \in DOMAIN C |-> C[k][a]])
 
 \* "a missing category or source item"
 Missing(F, op) == op.cat \notin DOMAIN F \/ op.from \notin ItemsOf(F[op.cat])
@@ -67,16 +74,16 @@ AlphabetOK(col, alpha) ==
 \* the first-seen mapping: k-th distinct value (in row order) |-> k-th letter
 FirstSeenMap(col, alpha) ==
   LET d == DistinctSeq(col) IN
-  [v \in Ran(col) |-> alpha[CHOOSE i \in DOMAIN d : d[i] = v]]
+  ForceFn([v \in Ran(d) |-> alpha[CHOOSE i \in DOMAIN d : d[i] = v]])      \* (Ran(d) = Ran(col))
 
 MapPairs(M) == { <<v, M[v]>> : v \in DOMAIN M }
 Injective(M) == \A u, v \in DOMAIN M : M[u] = M[v] => u = v
 
 CopyCat(C, from, to) ==
-  [k \in DOMAIN C |-> [a \in DOMAIN C[k] \cup {to} |-> IF a = to THEN C[k][from] ELSE C[k][a]]]
+  ForceSeq([k \in DOMAIN C |-> ForceFn([a \in DOMAIN C[k] \cup {to} |-> IF a = to THEN C[k][from] ELSE C[k][a]])])
 
 ReplaceCat(C, item, M) ==
-  [k \in DOMAIN C |-> [a \in DOMAIN C[k] |-> IF a = item THEN M[C[k][a]] ELSE C[k][a]]]
+  ForceSeq([k \in DOMAIN C |-> ForceFn([a \in DOMAIN C[k] |-> IF a = item THEN M[C[k][a]] ELSE C[k][a]])])
 
 \* the expected abstract document
 Expected(F, op) ==
